@@ -620,9 +620,12 @@ def run(ch, render=False):
                 (g.get("sock") is not None and (g["sock"].raised is not None or g["inject"] in ("rst", "stall_timeout")))
                 or (g.get("raw") is not None and g["raw"].raised is not None))
             if g["cats"] and g["cats"][-1] == "raises" and g["state"] in ("poisoned", "done"):
-                # everything before the bad packet was yielded; what a generator that does not die makes of the bad packet
-                # itself is not judged
+                # everything before the bad unit was yielded; what comes out of the bad unit itself (a group may yield an
+                # interposed packet before its reassembly raises; a generator that does not die may yield anything) is not judged
                 ok_items = got[:len(exp_items)] == exp_items
+            elif g["cats"] and g["cats"][-1] == "raises":
+                # abandoned (closed by the schedule) before or inside the bad unit: the same, on what was yielded so far
+                ok_items = got[:len(exp_items)] == exp_items[:len(got)]
             elif g["state"] == "done" and not faulted:
                 ok_items = got == exp_items
             else:
